@@ -99,6 +99,7 @@ NextFull ==
   \/ \E ts \in {Sels[2], <<>>}, i \in 1..Len(PBs) : DoAddBoxes(ts, PBs[i])
   \/ \E ts \in {Sels[3], <<>>}, i \in 1..3 : DoRemoveBoxes(ts, RBs[i])
   \/ \E ts \in {Sels[5], <<>>}, i \in 1..Len(CRs) : DoCrop(ts, CRs[i])
+  \/ DoCrop(Sels[1], CRs[1]) \/ DoRemoveBoxes(Sels[1], RBs[1])
 NextSmall ==
   \/ \E ts \in {Sels[2], Sels[3]} : DoInsert(ts, FALSE) \/ DoTrim(ts) \/ DoRotate(ts, 270)
   \/ DoRemove(Sels[4])
